@@ -335,7 +335,9 @@ def run(ctx):
             if not quick or s_ == 's_url': hists.append(((w, s_), (), ['clean', '--attic']))
             if not quick or s_ == 's_dev': hists.append(((w, s_), ('--clean-checkout',), None))
     if not quick:
-        for t in itertools.product(USER_ACTIONS, list(SPEC_ACTIONS) + UP_ACTIONS, list(SPEC_ACTIONS) + USER_ACTIONS):
+        # depth 3: user work, then two recipe/upstream changes (or further user work) over the sharper part of the alphabet
+        sh = ['s_dev', 's_commit', 's_dir', 's_url', 's_nested', 'u_commit', 'u_rewrite']
+        for t in itertools.product(USER_ACTIONS[:5], sh, sh + ['w_mod', 'w_commit']):
             hists.append((t, (), None))
         for a, b in itertools.product(A, repeat=2):
             hists.append(((a, b), ('--clean-checkout',), ['clean', '-s']))
